@@ -146,6 +146,10 @@ func searchMode(t *testing.T) {
 			break
 		}
 		ch := NewSearchChooser(*fSeed, r)
+		if *fProp == "C16" {
+			k := uint64(cancelPoints(*fTier))
+			ch.Preset(0, int(r/k), int(r%k)) // scenario, base run, cancellation point
+		}
 		wantTrace := len(out.Samples) < 2
 		res := oneRun(t, ch, *fProp, *fTier, dis, wantTrace || *fTrace)
 		out.Runs++
